@@ -38,6 +38,10 @@ var (
 	normDir  string
 	occ      map[string]int64
 	tearPath string
+
+	plan2K    int64
+	plan2Key  string
+	pauseDir2 string
 )
 
 // Reset restarts operation numbering (in-process harnesses call it before each run).
@@ -86,6 +90,15 @@ func loadPlan() {
 		}
 		normDir = os.Getenv("VOS_NORM")
 		occ = map[string]int64{}
+		// VOS_PAUSE2="i:<op> <path>" with VOS_PAUSE_DIR2: a second pause point of the same process (pauseop plans only)
+		if p2 := os.Getenv("VOS_PAUSE2"); p2 != "" && planKind == "pauseop" {
+			parts2 := strings.SplitN(p2, ":", 2)
+			if len(parts2) == 2 {
+				plan2K, _ = strconv.ParseInt(parts2[0], 10, 64)
+				plan2Key = parts2[1]
+				pauseDir2 = os.Getenv("VOS_PAUSE_DIR2")
+			}
+		}
 	case strings.HasPrefix(p, "fail@"):
 		planKind = "fail"
 		parts := strings.SplitN(strings.TrimPrefix(p, "fail@"), ":", 2)
@@ -126,6 +139,7 @@ func step(op, path string) error {
 		}
 		occ[key]++
 		hit := key == planKey && occ[key] == planK
+		hit2 := planKind == "pauseop" && plan2Key != "" && key == plan2Key && occ[key] == plan2K
 		if hit && planKind == "tearafter" {
 			tearPath = path
 			if i := strings.Index(path, " -> "); i >= 0 {
@@ -143,6 +157,15 @@ func step(op, path string) error {
 				time.Sleep(2 * time.Millisecond)
 			}
 			hit = false
+		}
+		if hit2 {
+			os.WriteFile(pauseDir2+"/reached", []byte(fmt.Sprintf("%d %s %s\n", n, op, path)), 0o644)
+			for {
+				if _, err := os.Stat(pauseDir2 + "/go"); err == nil {
+					break
+				}
+				time.Sleep(2 * time.Millisecond)
+			}
 		}
 		if hit {
 			syscall.Kill(os.Getpid(), syscall.SIGKILL)
